@@ -88,6 +88,35 @@ reg(
     "DESIGN.md section 4 C10",
 )
 
+reg(
+    "C02",
+    "Explicit TLA+ R-spec of the boot ROM's MBI acceptance automaton (MbiRom.tla), model-checked in abstract form over all image shapes x tampered field "
+    "classes (MbiRomMC: untampered accepted, every region except the key store rejected when tampered, every region inside an authenticated interval at "
+    "Accept); a Python executor walks the real bytes SPSDK exports along the automaton with an independent trusted base and logs one event per step; TLC "
+    "(MbiRomTrace) decides every trace, including single-bit tamper runs whose expected verdict comes from the TLC GEN output; 100 golden images must be accepted",
+    "model checking of the abstract automaton (33k states quick, 700k thorough, every action fires) + validation of every executor trace (540 exports + ~5k "
+    "tampers quick; 3.8k exports + ~390k tampers thorough) over 28 protected compositions, RSA-2048/3072/4096 chains depth 1..4 incl. a mixed-size chain, "
+    "P-256/P-384 root sets with every signing index, ISK, custom TrustZone, relocation tables, key store; ranges and offsets recomputed by TLC from logged header fields.",
+    "Crypto content (SHA-2, HMAC, RSA/ECDSA verify, AES-ECB/CTR, CRC) is evaluated by the executor with hashlib/hmac/own CRC/cryptography primitives called "
+    "directly, never through spsdk.crypto. Per-family ROM configuration and TrustZone block size are read from SPSDK's device database. DSC BCA/Vx images, plain "
+    "images and payloads < 64 bytes are outside the asserted domain.",
+    "DESIGN.md section 4 C02",
+)
+
+reg(
+    "C05",
+    "TLA+ R-spec Sb31Rom.tla (the SB 3.1 loader's acceptance automaton with coverage frontier and decoded = supplied clauses), model-checked against the "
+    "documented construction and 24 construction mistakes (Complete / Sound / Covered / Located); TLC enumerates configuration, command and stream-end tours, "
+    "simulates random command lists and generates all export histories from the I-spec Sb31Obj (whose as-built variant must be refuted); each case is built "
+    "through SecureBinary31 / Cmd* / CertBlockV21, an independent executor walks the exported bytes, TLC batch trace validation decides every export and every "
+    "single-bit-tampered file",
+    "model checking (180k states quick, 2.8M thorough) + ~6k (thorough ~70k) validated traces: all 14 command types, every stream-end offset mod 256, block "
+    "counts 1..275, P-256/P-384 with 1..4 roots, with/without ISK, PCK 128/256, plain and encrypted, histories of up to three exports.",
+    "Crypto facts (ECDSA, SHA-256/384, AES-CBC, AES-CMAC KDF) come from hashlib and cryptography called directly. Command-layout details tagged "
+    "frozen-from-source detect changes but are not independent evidence. Mixed root/ISK curves, timestamp 0 and the YAML / nxpimage layer are not exercised.",
+    "DESIGN.md section 4 C05",
+)
+
 NOT_YET = {
 }
 
